@@ -1,5 +1,6 @@
 import PermutaModel.Lemmas.C15Trie
 import PermutaModel.Lemmas.C15Fin
+import PermutaModel.Lemmas.C15Pipe
 
 /-!
 # C15 — the basis automaton
@@ -146,5 +147,153 @@ theorem accBits_eq (us : List Word) (x : Word) (d : Nat) :
 /-- the driver's enumeration of `L(M)` (`sembits`) is the filter of all words by the table -/
 theorem mTrieWords_eq (d : Nat) : mTrieWords d [] = (trieWords d []).filter dfaMAccepts :=
   C15Trie.mTrieWords_eq dfaM_language d [] (by decide)
+
+/-! ## the model's own determinise / minimise / product pipeline
+
+`C15Ex.Good d` is the shape of every automaton the model's constructions produce: at least one
+state, one acceptance bit per state, transitions inside the state set, every state reachable from
+state `0`.  All three constructions are built on `explore` (breadth-first numbering with arrays and
+fuel `= size of the code space`); `C15Ex.explore_spec` proves that this fuel suffices (the loop ends
+because every discovered code has been processed).  `DFA.accepts` rejects every word containing a
+letter outside `DIRS`, hence the `AStar w` conjunct below. -/
+
+/-- **`determinise_language`**: for every NFA whose edges stay inside its `n ≥ 1` states (every NFA
+    the model builds, see `determinise_language_pinword`) and every word `w`, the model's
+    bit-mask subset construction accepts `w` iff `w` is over `DIRS` and the NFA accepts `w`. -/
+theorem determinise_language (m : NFA) (hpos : 0 < m.n) (hE : C15Nfa.EdgesBelow m.edges m.n) (w : Word) :
+    (determinize m).accepts w = true ↔ AStar w ∧ nfaAccepts m w = true :=
+  C15Det.determinize_accepts m hpos hE w
+
+/-- non-vacuity: the automaton for `φ = {RU, UR}` (pin word `1`) -/
+example : 0 < (nfaOfDecomp [[['R', 'U'], ['U', 'R']]]).n ∧
+    C15Nfa.EdgesBelow (nfaOfDecomp [[['R', 'U'], ['U', 'R']]]).edges (nfaOfDecomp [[['R', 'U'], ['U', 'R']]]).n ∧
+    (determinize (nfaOfDecomp [[['R', 'U'], ['U', 'R']]])).accepts ['L', 'R', 'U', 'D'] = true ∧
+    (determinize (nfaOfDecomp [[['R', 'U'], ['U', 'R']]])).accepts ['L', 'R', 'D'] = false := by
+  refine ⟨by decide, by unfold C15Nfa.EdgesBelow; decide, by decide +kernel, by decide +kernel⟩
+
+/-- the hypotheses of `determinise_language` hold for the NFA of every pin word (every `u : Word`) -/
+theorem determinise_language_pinword (u w : Word) :
+    (determinize (nfaForPinword u)).accepts w = true ↔ AStar w ∧ pinwordAccepts u w = true :=
+  C15Det.determinize_accepts _ (C15Pipe.nfa_shape u).1 (C15Pipe.nfa_shape u).2 w
+
+/-- non-vacuity: with `nfa_language`, the determinised automaton of a pin word accepts exactly the
+    words over `DIRS` in the regular language -/
+example (u w : Word) : (determinize (nfaForPinword u)).accepts w = true ↔
+    AStar w ∧ regexLang ((factorPinword u).map spToM) w := by
+  rw [determinise_language_pinword]; unfold pinwordAccepts; rw [nfa_language]
+
+/-- **`minimise_language`**: Moore minimisation (refinement loop with fuel `= number of states`,
+    proved sufficient in `C15Min.refineLoop_spec`; canonical breadth-first renumbering) preserves
+    the language, and its result has the shape `Good` again. -/
+theorem minimise_language (d : DFA) (hd : C15Ex.Good d) (w : Word) :
+    (minimize d).accepts w = d.accepts w ∧ C15Ex.Good (minimize d) :=
+  ⟨C15Min.minimize_accepts d hd w, C15Min.minimize_good d hd⟩
+
+/-- non-vacuity: the automaton of `M` is `Good`; its minimisation accepts `ULD`, rejects `ULR` -/
+example : C15Ex.Good dfaM ∧ (minimize dfaM).accepts ['U', 'L', 'D'] = true ∧
+    (minimize dfaM).accepts ['U', 'L', 'R'] = false :=
+  ⟨C15Pipe.dfaM_good, by decide +kernel, by decide +kernel⟩
+
+/-- **`product_language`**: the reachable product accepts `w` iff `op` of the two acceptance bits holds
+    (for `op false false = false`, which `||` and `fun x y => x && !y` satisfy), and is `Good`. -/
+theorem product_language (a b : DFA) (ha : C15Ex.Good a) (hb : C15Ex.Good b) (op : Bool → Bool → Bool)
+    (hop : op false false = false) (w : Word) :
+    (product a b op).accepts w = op (a.accepts w) (b.accepts w) ∧ C15Ex.Good (product a b op) :=
+  ⟨C15Det.product_accepts a b ha hb op hop w, C15Det.product_good a b ha hb op⟩
+
+/-- the union used by the pipeline: `minimize (product a b (||))` -/
+theorem union_language (a b : DFA) (ha : C15Ex.Good a) (hb : C15Ex.Good b) (w : Word) :
+    (unionDFA a b).accepts w = (a.accepts w || b.accepts w) ∧ C15Ex.Good (unionDFA a b) :=
+  ⟨C15Pipe.union_accepts a b ha hb w, C15Pipe.union_good a b ha hb⟩
+
+/-- non-vacuity of `product_language` / `union_language` -/
+example : (unionDFA dfaM emptyDFA).accepts ['U', 'L'] = true ∧ (product dfaM dfaM (· && ·)).accepts ['U', 'U'] = false ∧
+    C15Ex.Good emptyDFA :=
+  ⟨by decide +kernel, by decide +kernel, C15Pipe.empty_good⟩
+
+/-- **`difference_language`**: the automaton handed to the finiteness test (`M` minus the basis
+    automaton) accepts `w` iff `w ∈ M` and the basis automaton rejects `w`; it is `Good` and carries
+    the run-time certificate `certB` (so the driver's certificate check can never fail). -/
+theorem difference_language (b : DFA) (hb : C15Ex.Good b) (w : Word) :
+    ((diffWithM b).accepts w = true ↔ InM w ∧ b.accepts w = false) ∧
+    C15Ex.Good (diffWithM b) ∧ (diffWithM b).certB = true := by
+  refine ⟨?_, C15Pipe.diffWithM_good b hb, C15Pipe.diffWithM_cert b hb⟩
+  rw [C15Pipe.diffWithM_accepts b hb, Bool.and_eq_true, dfaM_language]
+  simp
+
+/-- non-vacuity: `M` minus the empty language is `M` -/
+example : (diffWithM emptyDFA).accepts ['U', 'L'] = true ∧ (diffWithM emptyDFA).accepts ['U', 'D'] = false ∧
+    (diffWithM dfaM).accepts ['U', 'L'] = false := by
+  refine ⟨by decide +kernel, by decide +kernel, by decide +kernel⟩
+
+/-- **`pipeline_language`**: for every basis `B` and every word `w`, the model's basis automaton
+    (`dfaForBasis`: determinise + minimise every pin-word NFA, fold the unions, minimising each time)
+    accepts `w` iff `w` is over `DIRS` and the basis semantics (`basisAccepts`: some NFA of some pin
+    word of some basis element accepts) accepts `w`. -/
+theorem pipeline_language (B : List NSeq) (w : Word) :
+    (dfaForBasis B).accepts w = true ↔ AStar w ∧ basisAccepts B w = true :=
+  C15Pipe.dfaForBasis_accepts B w
+
+/-- the same in terms of the regular languages (with `basisAccepts_iff`) -/
+theorem pipeline_language_regex (B : List NSeq) (w : Word) :
+    (dfaForBasis B).accepts w = true ↔
+      AStar w ∧ ∃ p ∈ B, ∃ u ∈ permToPinwords p, regexLang ((factorPinword u).map spToM) w := by
+  rw [pipeline_language, basisAccepts_iff]
+
+/-- non-vacuity: the automaton of the basis `{1}` (pin words `1`, `2`, `3`, `4`) accepts `UR`, rejects
+    `U`; the empty basis gives the empty language -/
+example : permToPinwords [0] = [['1'], ['2'], ['3'], ['4']] ∧
+    (dfaForBasis [[0]]).accepts ['U', 'R'] = true ∧ (dfaForBasis [[0]]).accepts ['U'] = false ∧
+    (dfaForBasis []).accepts ['U', 'R'] = false := by
+  refine ⟨by decide +kernel, by decide +kernel, by decide +kernel, by decide +kernel⟩
+
+/-- per-permutation automaton (what the on-disk database stores, `make_dfa_for_perm`) -/
+theorem dfaForPerm_language (p : NSeq) (w : Word) :
+    (dfaForPerm p).accepts w = true ↔ AStar w ∧ wordsAccept (permToPinwords p) w = true :=
+  C15Pipe.dfaForWords_accepts _ w
+
+/-- the automaton the model hands to `isFiniteB` accepts exactly `L(M)` minus the basis semantics -/
+theorem pipeline_difference_language (B : List NSeq) (w : Word) :
+    (diffWithM (dfaForBasis B)).accepts w = true ↔ InM w ∧ basisAccepts B w = false := by
+  rw [(difference_language _ (C15Pipe.dfaForBasis_good B) w).1]
+  constructor
+  · rintro ⟨hM, hb⟩
+    refine ⟨hM, ?_⟩
+    cases h : basisAccepts B w with
+    | false => rfl
+    | true => rw [(pipeline_language B w).mpr ⟨hM.1, h⟩] at hb; cases hb
+  · rintro ⟨hM, hb⟩
+    refine ⟨hM, ?_⟩
+    cases h : (dfaForBasis B).accepts w with
+    | false => rfl
+    | true => rw [((pipeline_language B w).mp h).2] at hb; cases hb
+
+/-- **`has_finite_pinperms_iff_bounded`** – the statement the property makes, for every basis: the
+    model's `has_finite_pinperms B` is true iff the words of `L(M)` that the basis semantics rejects
+    are bounded in length.  No hypothesis is left: determinisation, minimisation, union, difference,
+    their fuel, and the finiteness test are all proved for the definitions the driver executes. -/
+theorem has_finite_pinperms_iff_bounded (B : List NSeq) :
+    hasFinitePinperms B = true ↔ ∃ N, ∀ w, InM w → basisAccepts B w = false → w.length ≤ N := by
+  unfold hasFinitePinperms finitePinpermsOf
+  have hg := (difference_language _ (C15Pipe.dfaForBasis_good B) []).2.1
+  rw [finite_iff_bounded _ hg.wf hg.pos hg.reach]
+  constructor
+  · rintro ⟨N, hN⟩
+    exact ⟨N, fun w hM hb => hN w ((pipeline_difference_language B w).mpr ⟨hM, hb⟩)⟩
+  · rintro ⟨N, hN⟩
+    exact ⟨N, fun w hacc => by
+      obtain ⟨hM, hb⟩ := (pipeline_difference_language B w).mp hacc
+      exact hN w hM hb⟩
+
+/-- the certificate the driver checks before printing the verdict always holds -/
+theorem finpin_certificate (B : List NSeq) : (diffWithM (dfaForBasis B)).certB = true :=
+  (difference_language _ (C15Pipe.dfaForBasis_good B) []).2.2
+
+/-- non-vacuity, both verdicts: the basis `{1}` leaves only boundedly many pin sequences, the empty
+    basis does not (the model's verdicts are evaluated, the two conclusions follow by the theorem) -/
+example : (∃ N, ∀ w, InM w → basisAccepts [[0]] w = false → w.length ≤ N) ∧
+    ¬ (∃ N, ∀ w, InM w → basisAccepts [] w = false → w.length ≤ N) :=
+  ⟨(has_finite_pinperms_iff_bounded _).mp (by decide +kernel),
+   fun h => absurd ((has_finite_pinperms_iff_bounded _).mpr h) (by decide +kernel)⟩
 
 end C15
